@@ -488,9 +488,6 @@ class WorkerPool:
         :param progress_bar_style: The progress bar style to use. Can be one of ``None``, ``'std'``, or ``'notebook'``
         :return: List with ordered results
         """
-        # Notify workers to keep order in mind
-        self._worker_comms.signal_keep_order()
-
         # If we're dealing with numpy arrays, we have to chunk them here already
         if NUMPY_INSTALLED and isinstance(iterable_of_args, np.ndarray):
             iterable_of_args, iterable_len, chunk_size, n_splits = apply_numpy_chunking(iterable_of_args, iterable_len,
@@ -500,14 +497,18 @@ class WorkerPool:
         # Process all args
         if iterable_len is None and hasattr(iterable_of_args, '__len__'):
             iterable_len = len(iterable_of_args)
-        results = self.map_unordered(
-            func, ((args_idx, args) for args_idx, args in enumerate(iterable_of_args)), iterable_len, max_tasks_active,
-            chunk_size, n_splits, worker_lifespan, progress_bar, worker_init, worker_exit, task_timeout, 
-            worker_init_timeout, worker_exit_timeout, progress_bar_options, progress_bar_style
-        )
 
-        # Notify workers to forget about order
-        self._worker_comms.clear_keep_order()
+        # Notify workers to keep order in mind
+        self._worker_comms.signal_keep_order()
+        try:
+            results = self.map_unordered(
+                func, ((args_idx, args) for args_idx, args in enumerate(iterable_of_args)), iterable_len,
+                max_tasks_active, chunk_size, n_splits, worker_lifespan, progress_bar, worker_init, worker_exit,
+                task_timeout, worker_init_timeout, worker_exit_timeout, progress_bar_options, progress_bar_style
+            )
+        finally:
+            # Notify workers to forget about order, also when the call failed (e.g., invalid parameters)
+            self._worker_comms.clear_keep_order()
 
         # Rearrange and return
         sorted_results = [result[1] for result in sorted(results, key=lambda result: result[0])]
@@ -620,9 +621,6 @@ class WorkerPool:
         :param progress_bar_style: The progress bar style to use. Can be one of ``None``, ``'std'``, or ``'notebook'``
         :return: Generator yielding ordered results
         """
-        # Notify workers to keep order in mind
-        self._worker_comms.signal_keep_order()
-
         # If we're dealing with numpy arrays, we have to chunk them here already
         if NUMPY_INSTALLED and isinstance(iterable_of_args, np.ndarray):
             iterable_of_args, iterable_len, chunk_size, n_splits = apply_numpy_chunking(iterable_of_args, iterable_len,
@@ -634,6 +632,9 @@ class WorkerPool:
         tmp_results = {}
         if iterable_len is None and hasattr(iterable_of_args, '__len__'):
             iterable_len = len(iterable_of_args)
+
+        # Notify workers to keep order in mind. imap_unordered clears it again, no matter how the call ends
+        self._worker_comms.signal_keep_order()
         for result_idx, result in self.imap_unordered(func, ((args_idx, args) for args_idx, args
                                                              in enumerate(iterable_of_args)), iterable_len,
                                                       max_tasks_active, chunk_size, n_splits, worker_lifespan,
@@ -715,33 +716,39 @@ class WorkerPool:
         :param progress_bar_style: The progress bar style to use. Can be one of ``None``, ``'std'``, or ``'notebook'``
         :return: Generator yielding unordered results
         """
-        # If we're dealing with numpy arrays, we have to chunk them here already
-        iterator_of_chunked_args = []
-        numpy_chunking = False
-        if NUMPY_INSTALLED and isinstance(iterable_of_args, np.ndarray):
-            iterator_of_chunked_args, iterable_len, chunk_size, n_splits = apply_numpy_chunking(
-                iterable_of_args, iterable_len, chunk_size, n_splits, self.pool_params.n_jobs
+        try:
+            # If we're dealing with numpy arrays, we have to chunk them here already
+            iterator_of_chunked_args = []
+            numpy_chunking = False
+            if NUMPY_INSTALLED and isinstance(iterable_of_args, np.ndarray):
+                iterator_of_chunked_args, iterable_len, chunk_size, n_splits = apply_numpy_chunking(
+                    iterable_of_args, iterable_len, chunk_size, n_splits, self.pool_params.n_jobs
+                )
+                numpy_chunking = True
+
+            # Check parameters and thereby obtain the number of tasks. The chunk_size and progress bar parameters could
+            # be modified as well
+            n_tasks, max_tasks_active, chunk_size, progress_bar, progress_bar_options = check_map_parameters(
+                self.pool_params, iterable_of_args, iterable_len, max_tasks_active, chunk_size, n_splits,
+                worker_lifespan, progress_bar, progress_bar_options, progress_bar_style, task_timeout,
+                worker_init_timeout, worker_exit_timeout
             )
-            numpy_chunking = True
+            new_map_params = WorkerMapParams(func, worker_init, worker_exit, worker_lifespan, progress_bar,
+                                             task_timeout, worker_init_timeout, worker_exit_timeout)
 
-        # Check parameters and thereby obtain the number of tasks. The chunk_size and progress bar parameters could be
-        # modified as well
-        n_tasks, max_tasks_active, chunk_size, progress_bar, progress_bar_options = check_map_parameters(
-            self.pool_params, iterable_of_args, iterable_len, max_tasks_active, chunk_size, n_splits, worker_lifespan,
-            progress_bar, progress_bar_options, progress_bar_style, task_timeout, worker_init_timeout, 
-            worker_exit_timeout
-        )
-        new_map_params = WorkerMapParams(func, worker_init, worker_exit, worker_lifespan, progress_bar, task_timeout,
-                                         worker_init_timeout, worker_exit_timeout)
+            # Chunk the function arguments. Make single arguments when we're not dealing with numpy arrays
+            if not numpy_chunking:
+                iterator_of_chunked_args = chunk_tasks(iterable_of_args, n_tasks, chunk_size, n_splits)
 
-        # Chunk the function arguments. Make single arguments when we're not dealing with numpy arrays
-        if not numpy_chunking:
-            iterator_of_chunked_args = chunk_tasks(iterable_of_args, n_tasks, chunk_size, n_splits)
-
-        # Grab original lock in case we have a progress bar and we need to restore it
-        tqdm = get_tqdm(progress_bar_style)
-        original_tqdm_lock = tqdm.get_lock()
-        tqdm_manager_owner = False
+            # Grab original lock in case we have a progress bar and we need to restore it
+            tqdm = get_tqdm(progress_bar_style)
+            original_tqdm_lock = tqdm.get_lock()
+            tqdm_manager_owner = False
+        except BaseException:
+            # An ordered (i)map announced its order mode before calling us. A call that's rejected here (e.g., invalid
+            # parameters) must not leave it on for the next call
+            self._worker_comms.clear_keep_order()
+            raise
 
         imap_iterator = None
         completed = False
